@@ -25,7 +25,8 @@ ASSUMPTIONS = ['population standard deviation (ddof=0) and linear-interpolation 
 CHUNK = 1
 
 STATS = ('mean', 'gmean', 'median', 'mode', 'std', 'cv', 'gstd', 'gcv', 'iqr', 'rcv')
-ALPHABETS = {'pos': (1, 2, 3), 'zero': (0, 7, 255), 'frac': (0.5, 2.25, 1000.125), 'neg': (-3, 1, 2)}
+ALPHABETS = {'pos': (1, 2, 3), 'zero': (0, 7, 255), 'frac': (0.5, 2.25, 1000.125), 'neg': (-3, 1, 2),
+             'big64': (2 ** 53, 2 ** 53 + 1, 2 ** 53 + 3)}          # neighbouring 64-bit integers that double precision cannot tell apart
 
 
 def ref_column(col):
@@ -102,10 +103,14 @@ def channel_forms(D, named):
 def cases(tier, seed):
     maxn = 3 if tier == 'quick' else 4
     conts = CONTAINERS_Q if tier == 'quick' else CONTAINERS_T
-    for alpha in ('pos', 'zero', 'frac', 'neg'):
+    for alpha in ('pos', 'zero', 'frac', 'neg', 'big64'):
         for D in (1, 2):
             for N in range(1, maxn + 1):
                 if alpha != 'pos' and N == 4 and D == 2:
+                    continue
+                if alpha == 'big64':
+                    for start in range(0, 3 ** (N * D), 81):
+                        yield dict(alpha=alpha, N=N, D=D, start=start, stop=min(3 ** (N * D), start + 81), containers=['arr:i8', 'arr:u8', 'fcs:64'])
                     continue
                 ncell = N * D
                 total = 3 ** ncell
@@ -201,6 +206,8 @@ def make_container(kind, M, alpha):
     N, D = len(M), len(M[0])
     isfrac = alpha == 'frac'
     k, sub = kind.split(':')
+    if alpha == 'big64' and kind not in ('arr:i8', 'arr:u8', 'fcs:64'):
+        return None
     if alpha == 'neg':
         # negative values (compensated data): signed / floating-point containers only
         if not ((k == 'arr' and sub in ('i8', 'f4', 'f8')) or (k == 'fcs' and sub in ('F', 'D'))):
@@ -222,6 +229,9 @@ def make_container(kind, M, alpha):
             w = int(sub)
             lay = dict(datatype='I', bits=[w] * D, ranges=[2 ** min(w, 10)] * D if False else [2 ** w] * D,
                        events=M, byteord='4,3,2,1')
+        if D == 5:
+            # channel labels ($PnS) that read like the NAMES of other channels: statistics are asked for by name, never by label
+            lay['extra'] = [('$P1S', 'CH4'), ('$P2S', 'CH5'), ('$P3S', 'other'), ('$P4S', 'CH1')]
         path = os.path.join(scratch(), 'c12.fcs')
         buf, _ = fcsgen.build(lay)
         with open(path, 'wb') as f:
@@ -307,6 +317,8 @@ def run_case(c):
                 for st in STATS:
                     if single and st != c['single']['stat'] and c['single']['stat'] not in ('identity',):
                         continue
+                    if alpha == 'big64' and st != 'mode':
+                        continue          # beyond 2**53 only the mode is an exact (counting) statistic; the others are double-precision arithmetic
                     exp = [ref(cols[j])[st] for j in sel]
                     one = dict(alpha=alpha, N=N, D=D, single=dict(idx=idx, container=kind, stat=st))
                     if all(e is None for e in exp):
@@ -344,7 +356,8 @@ def run_case(c):
                     bad = None
                     for gv, e in zip(flat, exp):
                         if st == 'mode':
-                            if not any(float(gv) == float(m) for m in e):
+                            exact = isinstance(gv, (int, np.integer)) and all(isinstance(m, int) for m in e)
+                            if not any((int(gv) == m) if exact else (float(gv) == float(m)) for m in e):
                                 bad = (gv, e)
                         elif not close(gv, e, tol):
                             bad = (gv, e)
